@@ -35,6 +35,16 @@ def run_case(rs, ctx):
     backend = "threading" if n_jobs > 1 and (ctx.tier == "quick" or rs.integers(16)) else None  # None -> loky processes (slow)
     cfg = gen.gen_cfg(rs, l, p, labels=labels, n_arms=int(gen.pick(rs, [1, 2, 3, 4, 2, 3, 4, 17])), n_jobs=n_jobs, backend=backend)
     cfg["min_arms"] = 1  # a bandit may shrink to (or start with) a single arm
+    if p in ("radius", "lsh") and rs.integers(3) == 0 and len(cfg["arms"]) >= 2:
+        # an empty-neighbourhood distribution is configured and the arms change nevertheless (known finding K6 describes what
+        # the unchanged library does then when a row without neighbours is predicted)
+        kk = int(rs.integers(1, len(cfg["arms"])))
+        probs = [0.0] * len(cfg["arms"])
+        for i_ in rs.permutation(len(cfg["arms"]))[:kk]:
+            probs[int(i_)] = 1.0 / kk
+        cfg["np"]["probs"] = probs
+        cfg["arm_changes_despite_probs"] = True
+        ctx.count("probs_with_arm_changes_cases")
     nf = int(gen.pick(rs, [1, 2, 3]))
     sh = gen.Shadow(cfg, nf)
     sh.vary_nf = True
@@ -56,6 +66,9 @@ def run_case(rs, ctx):
         try:
             gen.apply_op(m, op)
         except Exception as ex:  # noqa: BLE001
+            if gen.k6_applies(m, op, ex):
+                ctx.violation("%s: %s raised %s: %s" % (gen.cfg_sig(cfg), gen.short(op), type(ex).__name__, str(ex)[:80]), wit, mech="K6")
+                continue  # known finding K6; the rejected query changed nothing, the history goes on
             if gen.k5_applies(m, op, type(ex).__name__):
                 ctx.violation("%s: %s raised %s: %s" % (gen.cfg_sig(cfg), gen.short(op), type(ex).__name__, str(ex)[:80]), wit, mech="K5")
                 continue  # known finding K5; the rejected query changed nothing, the history goes on
